@@ -20,13 +20,15 @@ CONSTANTS
   SDen = {10}
   EShift = 12
   ENum = {10,12,15}
-  UserIdx = {1,2,3,4,5}
+  UserIdx = {1,3,5}
   Conts = {"tuple","list","ndarray","ndarray_readonly"}
-  OConts = {"list","ndarray"}
+  OConts = {"ndarray"}
   Spells = {1,2,3,4}
   FocusOwners = {"model"}
   CompOwners = {"observation"}
   MaxCompiles = 2
+  ModeWeight = 1
+  AgainWeight = 1
   Depth = 0
   Export = FALSE
   Defaults = "from_settings"
